@@ -1164,6 +1164,21 @@ def rt_c17(tier="quick", first_only=False, count=None):
             add(f"ElboLoss(num_samples={ns}) = {v0!r}; mean over samples drawn with the key of log q - target = {ref!r}", dict(loss="elbo", n=ns))
         if not _close(v0, v1, tol=1e-8):
             add(f"ElboLoss(num_samples={ns}): value {v0!r} without and {v1!r} with stick_the_landing", dict(loss="elbo", n=ns))
+    # multi-layer flows in both orientations (the and-log-det paths of the layer stack): same ELBO with and without STL
+    for fname, fl in (("masked_autoregressive_flow(layers=3, invert=False)", _perturb(Fl.masked_autoregressive_flow(k, base_dist=Dm.Normal(jnp.zeros(2), jnp.ones(2)), flow_layers=3, nn_width=6, invert=False), 8, 0.5)),
+                      ("coupling_flow(layers=3, invert=True)", _perturb(Fl.coupling_flow(k, base_dist=Dm.Normal(jnp.zeros(2), jnp.ones(2)), flow_layers=3, nn_width=6, invert=True), 9, 0.5))):
+        pf, sf = part(fl)
+        for ns in (3, 16):
+            n += 1
+            key = jr.PRNGKey(100 + ns)
+            v0 = float(L.ElboLoss(target, ns)(pf, sf, key))
+            v1 = float(L.ElboLoss(target, ns, stick_the_landing=True)(pf, sf, key))
+            smp = fl.sample(key, (ns,))
+            ref = float(np.mean(np.asarray(fl.log_prob(smp)) - np.asarray(jax.vmap(target)(smp))))
+            if not _close(v0, v1, tol=1e-7):
+                add(f"ElboLoss on {fname}, num_samples={ns}: value {v0!r} without and {v1!r} with stick_the_landing", dict(loss="elbo", dist=fname, n=ns))
+            if not _close(v1, ref, tol=1e-7):
+                add(f"ElboLoss(stl) on {fname}, num_samples={ns} = {v1!r}; mean over samples drawn with the key of log q - target = {ref!r}", dict(loss="elbo", dist=fname, n=ns))
     # STL gradient omits the score-function term: analytic for a diagonal Normal
     n += 1
     key = jr.PRNGKey(11)
@@ -1577,6 +1592,31 @@ def rt_c12(tier="quick", first_only=False, count=None):
                         break
         if first_only and fails:
             return fails
+    # constructors keep the wrappers of the children they store (a frozen leaf inside a vmapped / chained / stacked child stays frozen)
+    def frozen_affine():
+        return eqx.tree_at(lambda a: a.loc, B.Affine(jnp.array([0.5, -1.0]), jnp.array([1.0, 2.0])), replace_fn=NonTrainable)
+
+    stacked = eqx.filter_vmap(lambda l: eqx.tree_at(lambda a: a.loc, B.Affine(l, jnp.array(1.5)), replace_fn=NonTrainable))(jnp.array([0.5, -1.0, 2.0]))
+    for cname, build in (("Vmap(in_axes=if_array(0))", lambda: B.Vmap(stacked, in_axes=eqx.if_array(0))), ("Vmap(axis_size=3)", lambda: B.Vmap(eqx.tree_at(lambda a: a.loc, B.Affine(0.5, 1.5), replace_fn=NonTrainable), axis_size=3)),
+                         ("Chain", lambda: B.Chain([frozen_affine(), B.Tanh((2,))])), ("Invert", lambda: B.Invert(frozen_affine())), ("Concatenate", lambda: B.Concatenate([frozen_affine(), B.Exp((1,))])),
+                         ("Stack", lambda: B.Stack([frozen_affine(), B.Tanh((2,))])), ("Reshape", lambda: B.Reshape(frozen_affine(), (2, 1))), ("Partial", lambda: B.Partial(frozen_affine(), jnp.array([0, 2]), (3,)))):
+        n += 1
+        try:
+            comb = build()
+        except Exception as ex:  # noqa: BLE001
+            add(f"{cname} of a child with a frozen leaf raised {type(ex).__name__}: {str(ex)[:120]}", combinator=cname)
+            continue
+        n_frozen = sum(1 for l in jax.tree_util.tree_leaves(comb, is_leaf=lambda l: isinstance(l, NonTrainable)) if isinstance(l, NonTrainable))
+        if n_frozen < 1:
+            add(f"{cname}: the NonTrainable wrapper of the child's frozen leaf is gone after construction (the leaf would be trained)", combinator=cname)
+            continue
+        params, static = eqx.partition(comb, eqx.is_inexact_array, is_leaf=lambda l: isinstance(l, NonTrainable))
+        xin = jnp.ones(comb.shape) * 0.3
+        g = jax.grad(lambda pp: jnp.sum(unwrap(eqx.combine(pp, static)).transform(xin)))(params)
+        if n_frozen and any(isinstance(l, NonTrainable) for l in jax.tree_util.tree_leaves(g, is_leaf=lambda l: isinstance(l, NonTrainable))):
+            add(f"{cname}: a frozen leaf is handed to the optimiser as a trainable parameter", combinator=cname)
+    if first_only and fails:
+        return fails
     # methods give the same result on pre-unwrapped objects
     key = jr.PRNGKey(0)
     flow = _perturb(Fl.masked_autoregressive_flow(key, base_dist=Dm.Normal(jnp.zeros(2), jnp.ones(2)), flow_layers=2, nn_width=8), 3)
@@ -1625,12 +1665,24 @@ def rt_c12(tier="quick", first_only=False, count=None):
 
 # --------------------------------------------------------------------------------------
 # C14: eager == jit == vmap(loop); flatten/unflatten and leaf serialisation round trips (real objects)
-def bijection_zoo():
+def _zoo_half_sum(c):
+    return 0.5 * jnp.sum(c)
+
+
+def _zoo_sum(c):
+    return c.sum()
+
+
+def _zoo_first_doubled(c):
+    return c[:1] * 2
+
+
+def bijection_zoo(seed=0):
     import equinox as eqx
     import flowjax.bijections as B
     import jax.random as jr
 
-    k = jr.PRNGKey(0)
+    k = jr.PRNGKey(seed)
     aff = lambda n_: B.Affine(jnp.arange(n_) * 0.3, jnp.arange(1, n_ + 1) * 0.7)  # noqa: E731
     zoo = [
         ("Affine", aff(3), None), ("Loc", B.Loc(jnp.array([0.5, -1.0])), None), ("Scale", B.Scale(jnp.array([0.5, 2.0])), None), ("Exp", B.Exp((2,)), None), ("SoftPlus", B.SoftPlus((2,)), None),
@@ -1640,12 +1692,13 @@ def bijection_zoo():
         ("TriangularAffine(upper, trained)", _perturb(B.TriangularAffine(jnp.array([0.1, -0.2]), jnp.array([[1.5, -0.7], [3.0, 0.4]]), lower=False), 5, scale=1.0), None),
         ("RationalQuadraticSpline", build_spline_perturbed(4, (-2.0, 3.0), 3), None),
         ("Planar(leaky)", _perturb(B.Planar(k, dim=3, negative_slope=0.2), 1), None), ("Planar(tanh)", _perturb(B.Planar(k, dim=3), 1), None), ("Planar(cond, leaky)", B.Planar(k, dim=2, cond_dim=2, negative_slope=0.5, width_size=4, depth=1), 2),
-        ("AdditiveCondition", B.AdditiveCondition(lambda c: 0.5 * jnp.sum(c), (2,), (3,)), 3),
+        ("AdditiveCondition", B.AdditiveCondition(_zoo_half_sum, (2,), (3,)), 3),
         ("Chain", B.Chain([aff(3), B.Tanh((3,)), B.Permute(jnp.array([1, 2, 0]))]), None), ("Invert(Affine)", B.Invert(aff(2)), None),
         ("Scan(Affine)", B.Scan(eqx.filter_vmap(B.Affine)(jnp.array([[0.1, 0.2], [0.3, -0.4]]), jnp.array([[1.0, 2.0], [0.5, 1.5]]))), None),
         ("Vmap(spline)", B.Vmap(eqx.filter_vmap(lambda: build_spline_perturbed(3, (-1.0, 1.0), None), axis_size=3)(), in_axes=eqx.if_array(0)), None),
         ("Concatenate", B.Concatenate([aff(2), B.Exp((3,))]), None), ("Stack", B.Stack([aff(2), B.Tanh((2,))], axis=-1), None), ("Partial", B.Partial(B.Exp((2,)), jnp.array([0, 2]), (4,)), None),
-        ("Reshape", B.Reshape(aff(4), (2, 2)), None), ("EmbedCondition", B.EmbedCondition(B.AdditiveCondition(lambda c: c.sum(), (2,), (1,)), lambda c: c[:1] * 2, (3,)), 3),
+        ("Reshape", B.Reshape(aff(4), (2, 2)), None), ("EmbedCondition", B.EmbedCondition(B.AdditiveCondition(_zoo_sum, (2,), (1,)), _zoo_first_doubled, (3,)), 3),
+        ("EmbedCondition(Linear net)", B.EmbedCondition(B.AdditiveCondition(eqx.nn.Linear(2, 2, key=jr.fold_in(k, 7)), (2,), (2,)), eqx.nn.Linear(3, 2, key=jr.fold_in(k, 8)), (3,)), 3),
         ("Coupling", _perturb(B.Coupling(k, transformer=B.Affine(), untransformed_dim=1, dim=3, nn_width=4, nn_depth=1), 2), None),
         ("Coupling(cond)", _perturb(B.Coupling(k, transformer=B.Affine(), untransformed_dim=2, dim=3, cond_dim=2, nn_width=4, nn_depth=1), 3), 2),
         ("MaskedAutoregressive(uncond, spline)", _perturb(B.MaskedAutoregressive(k, transformer=B.RationalQuadraticSpline(knots=3, interval=2.0), dim=3, nn_width=5, nn_depth=1), 6), None),
@@ -1761,6 +1814,22 @@ def rt_c14(tier="quick", first_only=False, count=None, only=None):
                     fails.append(dict(what=f"{name}: behaviour changes after {lab}", case=dict(obj=name)))
         except Exception as ex:  # noqa: BLE001
             fails.append(dict(what=f"{name}: serialisation failed: {type(ex).__name__}: {str(ex)[:150]}", case=dict(obj=name)))
+        # loading into an INDEPENDENTLY constructed model of the same architecture (different PRNG key) must reproduce the saved
+        # model: every array that determines the behaviour has to be a pytree leaf (none hidden in static fields)
+        try:
+            other = dict((nm, ob) for nm, ob, _c in bijection_zoo(seed=1)).get(name)
+            if other is not None:
+                if jax.tree_util.tree_structure(other) != jax.tree_util.tree_structure(b):
+                    fails.append(dict(what=f"{name}: two models of the same architecture built with different PRNG keys have different pytree STRUCTURES: some key-dependent array is stored in a static field, so it is neither saved with the leaves nor trained", case=dict(obj=name, check="treedef")))
+                else:
+                    buf2 = io.BytesIO()
+                    eqx.tree_serialise_leaves(buf2, b)
+                    buf2.seek(0)
+                    loaded = eqx.tree_deserialise_leaves(buf2, other)
+                    if not np.allclose(np.asarray(loaded.transform(x, c)), np.asarray(b.transform(x, c)), rtol=1e-12, atol=1e-12, equal_nan=True):
+                        fails.append(dict(what=f"{name}: saved leaves loaded into a freshly constructed model of the same architecture do not reproduce the saved model (an array that determines the behaviour is not a pytree leaf)", case=dict(obj=name, check="serialise->fresh")))
+        except Exception as ex:  # noqa: BLE001
+            fails.append(dict(what=f"{name}: loading into a fresh model failed: {type(ex).__name__}: {str(ex)[:150]}", case=dict(obj=name)))
         if first_only and fails:
             return fails
     # distributions
